@@ -91,10 +91,8 @@ theorem const_view_no_write (conv : Word → Word) (d : GDesc) (op : Op) (b : Bu
     (h : op.dst.1.writable = false) :
     op.writeSet d = [] ∧ step (α := α) conv d op b = b := by
   have ht : op.target d = none := by
-    unfold Op.target resolve
-    cases resolvePath d op.dst.2 with
-    | none => rfl
-    | some r => simp [h]
+    cases op <;> simp only [Op.dst] at h <;> simp only [Op.target, Op.dst, resolve]
+    all_goals (cases resolvePath d _ <;> simp [h])
   exact ⟨by simp [Op.writeSet, ht], by simp [step, ht]⟩
 
 /-- reading operands (the second operand of `=`, `*=`, cast, through any kind of view, const or
@@ -108,14 +106,14 @@ theorem writeSet_only_dst (d : GDesc) (op : Op) :
 theorem map_eq_value (conv : Word → Word) (d : GDesc) (op : Op) (b : Buf) (t : Target)
     (ht : op.target d = some t) (hb : t.off + t.len ≤ b.size)
     (hlen : (opValue (α := α) conv (GDesc.model t.desc) op (load b t.off t.len)
-        (match op.src with | some s => load b s.off (repSize d) | none => [])).length = t.len) :
+        (match op.srcRange d with | some r => load b r.1 r.2 | none => [])).length = t.len) :
     load (step (α := α) conv d op b) t.off t.len
       = opValue (α := α) conv (GDesc.model t.desc) op (load b t.off t.len)
-          (match op.src with | some s => load b s.off (repSize d) | none => []) := by
+          (match op.srcRange d with | some r => load b r.1 r.2 | none => []) := by
   unfold step
   simp only [ht]
   generalize hv : opValue (α := α) conv (GDesc.model t.desc) op (load b t.off t.len)
-      (match op.src with | some s => load b s.off (repSize d) | none => []) = vals at hlen ⊢
+      (match op.srcRange d with | some r => load b r.1 r.2 | none => []) = vals at hlen ⊢
   have e : vals.take t.len = vals := by rw [← hlen]; exact List.take_length
   rw [e]
   have := load_write b t.off vals (by omega)
@@ -128,33 +126,75 @@ theorem opValue_length (conv : Word → Word) (d : GDesc) (op : Op) (b : Buf) (t
     (ht : op.target d = some t)
     (hlit : ∀ l p ws, op = .setCoeffs l p ws → ws.length = t.len) :
     (opValue (α := α) conv (GDesc.model t.desc) op (load b t.off t.len)
-        (match op.src with | some s => load b s.off (repSize d) | none => [])).length = t.len := by
-  -- the target's length is the RepSize of its descriptor
-  have hres : ∃ o, resolvePath d op.dst.2 = some (o, t.len, t.desc) := by
-    unfold Op.target resolve at ht
-    cases hr : resolvePath d op.dst.2 with
+        (match op.srcRange d with | some r => load b r.1 r.2 | none => [])).length = t.len := by
+  -- for the ops that write through an accessor chain, the target's length is the RepSize of its descriptor
+  have hres : ∀ (l : Loc) (p : List Acc), op.dst = (l, p) →
+      (∀ x y z, op ≠ .readSub x y z) → (∀ x y z, op ≠ .readLog x y z) →
+      (GDesc.model (α := α) t.desc).rep = t.len := by
+    intro l p hd h1 h2
+    have hr : ∃ o, resolvePath d p = some (o, t.len, t.desc) := by
+      have ht' : (match resolve d l p with
+          | some t => if t.writable then some t else none
+          | none => none) = some t := by
+        cases op <;> simp_all [Op.target, Op.dst]
+        all_goals exact ht
+      unfold resolve at ht'
+      cases hr : resolvePath d p with
+      | none => simp [hr] at ht'
+      | some r =>
+        obtain ⟨o, len, sd⟩ := r
+        simp only [hr] at ht'
+        split at ht'
+        · simp only [Option.some.injEq] at ht'; subst ht'; exact ⟨o, rfl⟩
+        · cases ht'
+    obtain ⟨o, hr⟩ := hr
+    rw [model_rep, resolvePath_len _ _ _ _ _ hr]
+  cases op with
+  | setIdentity l p =>
+    simp only [opValue]; rw [valIdentity_length]; exact hres l p rfl (by intros; simp) (by intros; simp)
+  | setCoeffs l p ws => simp only [opValue]; exact hlit l p ws rfl
+  | mulLit l p ws =>
+    simp only [opValue]; rw [valCompose_length]; exact hres l p rfl (by intros; simp) (by intros; simp)
+  | mulLoc dst src =>
+    simp only [opValue]; rw [valCompose_length]; exact hres dst [] rfl (by intros; simp) (by intros; simp)
+  | plusLit l p a =>
+    simp only [opValue]; rw [valPlus_length]; exact hres l p rfl (by intros; simp) (by intros; simp)
+  | assign dst src =>
+    have := hres dst [] rfl (by intros; simp) (by intros; simp)
+    have hl : t.len = repSize d := by
+      simp only [Op.target, Op.dst, resolve, resolvePath] at ht
+      split at ht
+      · simp only [Option.some.injEq] at ht; subst ht; rfl
+      · cases ht
+    simp only [opValue, Op.srcRange, load_length]; exact hl.symm
+  | castRt dst src =>
+    have hl : t.len = repSize d := by
+      simp only [Op.target, Op.dst, resolve, resolvePath] at ht
+      split at ht
+      · simp only [Option.some.injEq] at ht; subst ht; rfl
+      · cases ht
+    simp only [opValue, Op.srcRange, List.length_map, load_length]; exact hl.symm
+  | readSub dst src p =>
+    simp only [Op.target] at ht
+    cases hr : resolve d src p with
     | none => simp [hr] at ht
-    | some r =>
-      obtain ⟨o, l, sd⟩ := r
+    | some ts =>
       simp only [hr] at ht
       split at ht
-      · simp only [Option.some.injEq] at ht; subst ht; exact ⟨o, rfl⟩
+      · simp only [Option.some.injEq] at ht; subst ht
+        simp [opValue, Op.srcRange, hr, load_length]
       · cases ht
-  obtain ⟨o, hr⟩ := hres
-  have hlen : t.len = repSize t.desc := resolvePath_len _ _ _ _ _ hr
-  have hrep : (GDesc.model (α := α) t.desc).rep = t.len := by rw [model_rep, hlen]
-  cases op with
-  | setIdentity l p => simp only [opValue]; rw [valIdentity_length, hrep]
-  | setCoeffs l p ws => simp only [opValue]; exact hlit l p ws rfl
-  | mulLit l p ws => simp only [opValue]; rw [valCompose_length, hrep]
-  | mulLoc dst src => simp only [opValue]; rw [valCompose_length, hrep]
-  | plusLit l p a => simp only [opValue]; rw [valPlus_length, hrep]
-  | assign dst src =>
-    simp only [Op.dst, resolvePath, Option.some.injEq, Prod.mk.injEq] at hr
-    simp only [opValue, Op.src, load_length]; exact hr.2.1
-  | castRt dst src =>
-    simp only [Op.dst, resolvePath, Option.some.injEq, Prod.mk.injEq] at hr
-    simp only [opValue, Op.src, List.length_map, load_length]; exact hr.2.1
+  | readLog dst src p =>
+    simp only [Op.target] at ht
+    cases hr : resolve d src p with
+    | none => simp [hr] at ht
+    | some ts =>
+      simp only [hr] at ht
+      split at ht
+      · simp only [Option.some.injEq] at ht; subst ht
+        simp only [opValue]
+        rw [wordsOfVec_length, model_dof]
+      · cases ht
 
 /-- **map_eq_value** without the side condition: for every op of the script language whose target
     lies inside the buffer, `load ∘ op_view = op_value ∘ load`. -/
@@ -163,8 +203,31 @@ theorem map_eq_value_total (conv : Word → Word) (d : GDesc) (op : Op) (b : Buf
     (hlit : ∀ l p ws, op = .setCoeffs l p ws → ws.length = t.len) :
     load (step (α := α) conv d op b) t.off t.len
       = opValue (α := α) conv (GDesc.model t.desc) op (load b t.off t.len)
-          (match op.src with | some s => load b s.off (repSize d) | none => []) :=
+          (match op.srcRange d with | some r => load b r.1 r.2 | none => []) :=
   map_eq_value (α := α) conv d op b t ht hb (opValue_length (α := α) conv d op b t ht hlit)
+
+/-- **const read window**: reading a sub-part through the const overload of an accessor chain
+    (`Map<const G>`, const value, `std::as_const(Map<G>)`) returns exactly the words
+    `[off + sub.off, off + sub.off + sub.len)` of the model's sub-view — the SAME window the mutable
+    overload writes (the resolved range does not depend on the `writable` flag of the view). -/
+theorem const_read_window (conv : Word → Word) (d : GDesc) (dst src : Loc) (p : List Acc) (b : Buf)
+    (ts : Target) (hs : resolve d src p = some ts) (hw : dst.writable = true)
+    (hb : dst.off + ts.len ≤ b.size) :
+    load (step (α := α) conv d (.readSub dst src p) b) dst.off ts.len = load b ts.off ts.len
+    ∧ (resolve d ⟨src.off, !src.writable⟩ p).map (fun t => (t.off, t.len)) = some (ts.off, ts.len) := by
+  constructor
+  · have ht : (Op.readSub dst src p).target d = some ⟨dst.off, ts.len, ts.desc, true⟩ := by
+      simp [Op.target, hs, hw]
+    have := map_eq_value_total (α := α) conv d (.readSub dst src p) b _ ht hb (by intros; simp_all)
+    simpa [opValue, Op.srcRange, hs] using this
+  · unfold resolve at hs ⊢
+    cases hr : resolvePath d p with
+    | none => simp [hr] at hs
+    | some r =>
+      obtain ⟨o, len, sd⟩ := r
+      simp only [hr, Option.some.injEq] at hs
+      subst hs
+      simp
 
 /-- **assign_verbatim**: construction / assignment between value, Map and const-Map storage copies
     the `RepSize` coefficients verbatim — whatever the overlap of the two regions (the model reads
@@ -178,8 +241,8 @@ theorem assign_verbatim (conv : Word → Word) (d : GDesc) (dst src : Loc) (b : 
     simp [Op.target, resolve, resolvePath, Op.dst, hw]
   constructor
   · have := map_eq_value (α := α) conv d (.assign dst src) b _ ht (by simpa using hb)
-      (by simp [opValue, Op.src, load_length])
-    simpa [opValue, Op.src] using this
+      (by simp [opValue, Op.srcRange, load_length])
+    simpa [opValue, Op.srcRange] using this
   · intro i hi
     exact (frame (α := α) conv d (.assign dst src) b i (by
       intro w hw'
@@ -209,6 +272,8 @@ example : (Op.setIdentity ⟨5, false⟩ [.part 1, .so3]).writeSet (.bundle [.tn
 /-- two overlapping views: word 3 lies in both write-sets, word 9 in neither -/
 example : (Op.assign ⟨1, true⟩ ⟨3, false⟩).writeSet .se2 = [(1, 4)]
     ∧ (Op.assign ⟨3, true⟩ ⟨1, true⟩).writeSet .se2 = [(3, 4)] := by decide
+/-- reading `part<1>()` of `Bundle<R3, SO3>` through a const view at word 2 sees words `[5, 9)` -/
+example : (Op.readSub ⟨20, true⟩ ⟨2, false⟩ [.part 1]).srcRange (.bundle [.tn 3, .so3]) = some (5, 4) := by decide
 example : write #[1, 2, 3, 4, 5] 1 [9, 8] = #[1, 9, 8, 4, 5] := by decide
 example : load #[1, 2, 3, 4, 5] 1 3 = [2, 3, 4] := by decide
 
